@@ -142,13 +142,18 @@ fn one(ctx: &Ctx, rng: &mut StdRng, b: &Value, only: &[&'static str], rep: &mut 
     };
     // run
     let port = 27015u16;
-    let host = match rng.gen_range(0 .. 4) {
+    let host = match rng.gen_range(0 .. 5) {
         0 => String::new(),
         1 => "mc.example.org".to_string(),
         2 => random_string(rng, 1, 60),
+        // lengths around the 7-bit groups of the VarInt length prefixes (host name length, handshake body length)
+        3 => "h".repeat([53usize, 54, 63, 64, 117, 118, 127, 128, 255][rng.gen_range(0 .. 9)]),
         _ => "gamedig".to_string(),
     };
-    let pv: i32 = [-1, 0, 47, 765, i32::MAX, i32::MIN][rng.gen_range(0 .. 6)];
+    // protocol versions: the documented special value, common versions, and both sides of every 7-bit group boundary
+    const PVS: [i32; 22] = [-1, 0, 47, 765, i32::MAX, i32::MIN, 63, 64, 127, 128, 8191, 8192, 16383, 16384, (1 << 21) - 1, 1 << 21,
+                            (1 << 28) - 1, 1 << 28, -2, -128, -129, 1 << 30];
+    let pv: i32 = if rng.gen_bool(0.8) { PVS[rng.gen_range(0 .. PVS.len())] } else { rng.gen() };
     // Java: the request settings reach the handshake either directly (protocol level) or as the caller's extra request settings
     // of the definition-driven entry point, where each of the two may be left unset (documented defaults: "gamedig", -1)
     let via_extras = p == "java" && rng.gen_bool(0.5);
